@@ -820,8 +820,10 @@ def run(tier, only_adapter=None, only_key=None, chk=None):
 
 def _run(chk, thorough, gen, only_adapter, only_key):
     from .. import realenv  # noqa: F401  (imports the package, silences its logging)
-    design_runs(chk, gen, thorough)
-    hists = emit_histories(chk, gen, thorough)
+    replaying = only_key is not None
+    if not replaying:
+        design_runs(chk, gen, thorough)
+    hists = emit_histories(chk, gen, thorough) if not replaying else []
     nfault = 0
     found = {}
     ads = [cls(chk.scratch) for cls in ADAPTERS if not only_adapter or cls.name == only_adapter]
@@ -850,7 +852,7 @@ def _run(chk, thorough, gen, only_adapter, only_key):
             chk.violation(k, found[k][0], found[k][1])
     nh = 0
     for cls in ADAPTERS:
-        if only_adapter and cls.name != only_adapter:
+        if replaying or (only_adapter and cls.name != only_adapter):
             continue
         if cls is StatusAd:
             nh += fidelity(chk, cls, hists, chk.scratch, 4, True, only=only_key)
@@ -877,7 +879,14 @@ def _run(chk, thorough, gen, only_adapter, only_key):
 
 
 def replay(path):
+    """fidelity: the recorded history is executed again on its writer; atomicity: the create/update/update sequence of the
+    writer is recorded again, validated by TLC and all its crash / I/O-error points are realised"""
     d = json.load(open(path))
     rp = d["replay"]
     chk = Check(PID, "quick")
+    if rp["kind"] == "fidelity":
+        from .. import realenv  # noqa: F401
+        cls = [c for c in ADAPTERS if c.name == rp["adapter"]][0]
+        fidelity(chk, cls, [{"hist": rp["hist"], "read": rp["read"]}], chk.scratch, 99, True)
+        return chk.finish()
     return run("quick", only_adapter=rp["adapter"], only_key=d["key"], chk=chk)
